@@ -188,3 +188,299 @@ impl Part for C16 {
         }
     }
 }
+
+// =====================================================================================
+// free-running threads: publisher, subscriber churn and the runtime of the observers on three OS threads
+//
+// The E1 part runs publisher, forwarding tasks and subscribers on one thread, where `send` and `subscribe`
+// are atomic with respect to each other. Here `send` runs on a publisher thread while another thread keeps
+// subscribing (idle actors, a stopped actor, a second observer) to the same port.
+
+pub mod threads {
+    use std::sync::atomic::{AtomicBool, AtomicI64, AtomicU64, Ordering};
+    use std::sync::{Arc, Mutex};
+    use std::time::{Duration, Instant};
+
+    use proptest::prelude::*;
+    use ractor::port::OutputPort;
+    use ractor::{Actor, ActorProcessingErr, ActorRef};
+    use serde::{Deserialize, Serialize};
+
+    use crate::core::{viol, Violation};
+    use crate::runner::*;
+
+    const FINAL: u64 = 1 << 40;
+
+    #[derive(Default)]
+    pub struct ObsShared {
+        got: Mutex<Vec<u64>>,
+        /// last number seen, -1 = none
+        last: AtomicI64,
+    }
+
+    struct Observer;
+    #[cfg_attr(feature = "async-trait", ractor::async_trait)]
+    impl Actor for Observer {
+        type Msg = u64;
+        type State = Arc<ObsShared>;
+        type Arguments = Arc<ObsShared>;
+        async fn pre_start(&self, _m: ActorRef<u64>, a: Arc<ObsShared>) -> Result<Self::State, ActorProcessingErr> {
+            Ok(a)
+        }
+        async fn handle(&self, _m: ActorRef<u64>, n: u64, st: &mut Self::State) -> Result<(), ActorProcessingErr> {
+            st.got.lock().unwrap().push(n);
+            st.last.store(n as i64, Ordering::SeqCst);
+            Ok(())
+        }
+    }
+
+    struct Idle;
+    #[cfg_attr(feature = "async-trait", ractor::async_trait)]
+    impl Actor for Idle {
+        type Msg = u64;
+        type State = ();
+        type Arguments = ();
+        async fn pre_start(&self, _m: ActorRef<u64>, _: ()) -> Result<(), ActorProcessingErr> {
+            Ok(())
+        }
+    }
+
+    #[derive(Clone, Copy, Debug, Serialize, Deserialize, PartialEq)]
+    pub enum SubKind {
+        Idle,
+        Dead,
+        Observer2,
+    }
+
+    #[derive(Clone, Debug, Serialize, Deserialize)]
+    pub struct ThreadsCase {
+        pub n_pub: u8,
+        /// the publisher never runs more than this many publications ahead of what the observers have seen (< buffer of the default port)
+        pub window: u8,
+        /// busy-wait before each publication (cyclic), units of 32 iterations
+        pub pub_spin: Vec<u16>,
+        /// subscriber thread: (busy-wait before, what to subscribe)
+        pub subs: Vec<(u16, SubKind)>,
+        pub rounds: u8,
+    }
+
+    fn spin(n: u32) {
+        for _ in 0..n {
+            std::hint::spin_loop();
+        }
+    }
+
+    struct World {
+        port: Arc<OutputPort<u64>>,
+        o2: ActorRef<u64>,
+        idle: ActorRef<u64>,
+        dead: ActorRef<u64>,
+        handle: tokio::runtime::Handle,
+    }
+
+    enum Round {
+        Judged { o2_subscribed: bool },
+        NotJudged(&'static str),
+    }
+
+    fn one_round(case: &ThreadsCase) -> Result<Round, Violation> {
+        let (s1, s2) = (Arc::new(ObsShared::default()), Arc::new(ObsShared::default()));
+        s1.last.store(-1, Ordering::SeqCst);
+        s2.last.store(-1, Ordering::SeqCst);
+        let done = Arc::new(AtomicBool::new(false));
+        let (tx, rx) = std::sync::mpsc::channel::<World>();
+        let (s1r, s2r, done_r) = (s1.clone(), s2.clone(), done.clone());
+        let rt_thread = std::thread::spawn(move || {
+            let rt = tokio::runtime::Builder::new_current_thread().enable_time().build().expect("rt");
+            let handle = rt.handle().clone();
+            rt.block_on(async move {
+                let (o1, h1) = Actor::spawn(None, Observer, s1r).await.expect("spawn");
+                let (o2, h2) = Actor::spawn(None, Observer, s2r).await.expect("spawn");
+                let (idle, h3) = Actor::spawn(None, Idle, ()).await.expect("spawn");
+                let (dead, h4) = Actor::spawn(None, Idle, ()).await.expect("spawn");
+                dead.stop(None);
+                let _ = h4.await;
+                let port = Arc::new(OutputPort::<u64>::default());
+                port.subscribe(o1.clone(), Some);
+                // let the subscription settle (the v2 port registers subscribers in its own task)
+                for _ in 0..4 {
+                    tokio::task::yield_now().await;
+                }
+                let _ = tx.send(World { port: port.clone(), o2: o2.clone(), idle: idle.clone(), dead, handle });
+                while !done_r.load(Ordering::SeqCst) {
+                    tokio::time::sleep(Duration::from_micros(200)).await;
+                }
+                drop(port);
+                for a in [o1.get_cell(), o2.get_cell(), idle.get_cell()] {
+                    a.stop(None);
+                }
+                let _ = (h1.await, h2.await, h3.await);
+            });
+        });
+        let w = match rx.recv() {
+            Ok(w) => w,
+            Err(_) => {
+                let _ = rt_thread.join();
+                return Ok(Round::NotJudged("runtime thread failed"));
+            }
+        };
+        let n = case.n_pub as u64;
+        let win = case.window.clamp(1, 4) as i64;
+        // number of the first publication that began after observer 2's subscribe call returned (u64::MAX: not subscribed)
+        let o2_from = Arc::new(AtomicU64::new(u64::MAX));
+        let next = Arc::new(AtomicU64::new(0));
+        let barrier = Arc::new(std::sync::Barrier::new(2));
+        let stuck = Arc::new(AtomicBool::new(false));
+        let publisher = {
+            let (port, s1, s2, o2_from, next, barrier, stuck, spins) = (w.port.clone(), s1.clone(), s2.clone(), o2_from.clone(), next.clone(), barrier.clone(), stuck.clone(), case.pub_spin.clone());
+            std::thread::spawn(move || {
+                barrier.wait();
+                for i in 0..n {
+                    if !spins.is_empty() {
+                        spin(spins[i as usize % spins.len()] as u32 * 32);
+                    }
+                    // stay within the window: the observers have seen publication i-1-window (or a later one)
+                    let need = i as i64 - 1 - win;
+                    let t0 = Instant::now();
+                    loop {
+                        let from = o2_from.load(Ordering::SeqCst);
+                        let ok1 = s1.last.load(Ordering::SeqCst) >= need;
+                        let ok2 = from == u64::MAX || (from as i64) > need || s2.last.load(Ordering::SeqCst) >= need;
+                        if ok1 && ok2 {
+                            break;
+                        }
+                        if t0.elapsed() > Duration::from_secs(5) {
+                            stuck.store(true, Ordering::SeqCst);
+                            return;
+                        }
+                        std::thread::yield_now();
+                    }
+                    next.store(i + 1, Ordering::SeqCst);
+                    port.send(i);
+                }
+            })
+        };
+        let subscriber = {
+            let (port, o2, idle, dead, handle, o2_from, next, barrier, subs) = (w.port.clone(), w.o2.clone(), w.idle.clone(), w.dead.clone(), w.handle.clone(), o2_from.clone(), next.clone(), barrier.clone(), case.subs.clone());
+            std::thread::spawn(move || {
+                let _ctx = handle.enter();
+                barrier.wait();
+                for (sp, kind) in subs {
+                    spin(sp as u32 * 32);
+                    match kind {
+                        SubKind::Idle => port.subscribe(idle.clone(), Some),
+                        SubKind::Dead => port.subscribe(dead.clone(), Some),
+                        SubKind::Observer2 => {
+                            if o2_from.load(Ordering::SeqCst) == u64::MAX {
+                                port.subscribe(o2.clone(), Some);
+                                o2_from.store(next.load(Ordering::SeqCst), Ordering::SeqCst);
+                            }
+                        }
+                    }
+                }
+            })
+        };
+        let _ = subscriber.join();
+        let _ = publisher.join();
+        let mut not_judged = None;
+        if stuck.load(Ordering::SeqCst) {
+            not_judged = Some("publisher window never opened within 5 s");
+        } else {
+            // nothing runs concurrently any more: one last publication flushes the stream
+            w.port.send(FINAL);
+            let from = o2_from.load(Ordering::SeqCst);
+            let t0 = Instant::now();
+            loop {
+                let ok1 = s1.last.load(Ordering::SeqCst) == FINAL as i64;
+                let ok2 = from == u64::MAX || s2.last.load(Ordering::SeqCst) == FINAL as i64;
+                if ok1 && ok2 {
+                    break;
+                }
+                if t0.elapsed() > Duration::from_secs(5) {
+                    not_judged = Some("final publication not seen within 5 s");
+                    break;
+                }
+                std::thread::yield_now();
+            }
+        }
+        done.store(true, Ordering::SeqCst);
+        drop(w);
+        let _ = rt_thread.join();
+        if let Some(why) = not_judged {
+            return Ok(Round::NotJudged(why));
+        }
+        let from = o2_from.load(Ordering::SeqCst);
+        let g1 = s1.got.lock().unwrap().clone();
+        let g2 = s2.got.lock().unwrap().clone();
+        let want1: Vec<u64> = (0..n).chain([FINAL]).collect();
+        for (name, g) in [("observer 1", &g1), ("observer 2", &g2)] {
+            for wd in g.windows(2) {
+                if wd[1] <= wd[0] {
+                    return Err(viol(if wd[1] == wd[0] { "C16/duplicate" } else { "C16/out-of-order" }, format!("(free-running threads; observed history) {name} received {g:?}")));
+                }
+            }
+        }
+        if g1 != want1 {
+            let missing: Vec<u64> = want1.iter().filter(|x| !g1.contains(x)).copied().collect();
+            return Err(viol("C16/skipped-without-lag", format!("(free-running threads; observed history) observer 1 was subscribed before the first publication and never more than {} publications behind, {} publications; it never received {missing:?} (other actors were being subscribed to the port from another thread meanwhile)", win + 1, n)));
+        }
+        if from != u64::MAX {
+            let missing: Vec<u64> = (from..n).chain([FINAL]).filter(|x| !g2.contains(x)).collect();
+            if !missing.is_empty() {
+                return Err(viol("C16/skipped-without-lag", format!("(free-running threads; observed history) observer 2's subscribe call returned before publication {from} began; it never received {missing:?}; received {g2:?}")));
+            }
+        } else if !g2.is_empty() {
+            return Err(viol("C16/unexpected-message", format!("(free-running threads) observer 2 was never subscribed but received {g2:?}")));
+        }
+        Ok(Round::Judged { o2_subscribed: from != u64::MAX && from > 0 && from < n })
+    }
+
+    pub struct C16Threads;
+    impl Part for C16Threads {
+        type Case = ThreadsCase;
+        const PROP: &'static str = "C16";
+        #[cfg(feature = "v2")]
+        const PART: &'static str = "free-threads-v2";
+        #[cfg(not(feature = "v2"))]
+        const PART: &'static str = "free-threads-v1";
+        #[cfg(feature = "v2")]
+        const VARIANT: &'static str = "v2";
+        const DETERMINISTIC: bool = false;
+        fn cases(tier: Tier) -> u32 {
+            match tier {
+                Tier::Quick => 1_200,
+                Tier::Thorough => 40_000,
+            }
+        }
+        fn strategy(_tier: Tier) -> BoxedStrategy<ThreadsCase> {
+            let kind = prop_oneof![6 => Just(SubKind::Idle), 2 => Just(SubKind::Dead), 1 => Just(SubKind::Observer2)];
+            let sub = (prop_oneof![3 => Just(0u16), 3 => 0u16..20, 1 => 20u16..400], kind);
+            (20u8..80, 1u8..=4, proptest::collection::vec(prop_oneof![2 => Just(0u16), 2 => 0u16..30, 1 => 30u16..300], 1..6), proptest::collection::vec(sub, 8..100))
+                .prop_map(|(n_pub, window, pub_spin, subs)| ThreadsCase { n_pub, window, pub_spin, subs, rounds: 3 })
+                .boxed()
+        }
+        fn run(case: &ThreadsCase, _want_trace: bool) -> Outcome {
+            let (mut judged, mut mid, mut labels) = (0, false, vec![]);
+            for _ in 0..case.rounds {
+                match one_round(case) {
+                    Err(v) => return Outcome { verdict: Verdict::Fail(v), nontrivial: false, labels: vec![], trace: vec![] },
+                    Ok(Round::Judged { o2_subscribed }) => {
+                        judged += 1;
+                        mid |= o2_subscribed;
+                    }
+                    Ok(Round::NotJudged(why)) => labels.push(format!("round-not-judged: {why}")),
+                }
+            }
+            if judged == 0 {
+                return Outcome { verdict: Verdict::Inconclusive("no round could be judged".into()), nontrivial: false, labels, trace: vec![] };
+            }
+            if mid {
+                labels.push("mid-stream-observer".into());
+            }
+            Outcome { verdict: Verdict::Pass, nontrivial: true, labels, trace: vec![] }
+        }
+        fn rule() -> &'static str {
+            "three OS threads, 3 rounds per case: the observers' current-thread runtime; a publisher thread publishing 20-80 numbered messages with generated busy-waits, never more than window+1 (2-5, below the default port's buffer of 10) publications ahead of what the observers have seen; a subscriber thread making 8-100 subscribe calls (an idle actor, a stopped actor, once a second observer) with generated busy-waits; then one final publication with nothing else running. Oracle on the observed history: observer 1 (subscribed before the first publication) receives exactly 0..n and the final one, in order, once; observer 2 receives, in order and once, at least every publication that began after its subscribe call returned. A round whose publisher window or final publication is not seen within 5 s is not judged (label); non-trivial = at least one judged round"
+        }
+    }
+}
